@@ -69,9 +69,10 @@ abstract_term!(term1, 1);
 abstract_term!(term2, 2);
 abstract_term!(term3, 3);
 const ABSTRACT_TERMS: &'static [(f32, EvaluationFunction)] = &[(1.0, term0), (0.8, term1), (1.0, term2), (0.2, term3)];
-/// quick tier: one term with a non-trivial weight (each float multiplication doubles the solver's work; oddness of
-/// the weighting is its own obligation, c13_mul_f32_is_odd)
-const ABSTRACT_TERMS_QUICK: &'static [(f32, EvaluationFunction)] = &[(0.8, term1)];
+/// quick tier: two terms, one with a non-trivial weight (each float multiplication doubles the solver's work; oddness of
+/// the weighting is its own obligation, c13_mul_f32_is_odd); two, so that anything the term loop does BETWEEN terms (an
+/// early exit, a running clamp) is exercised from both perspectives
+const ABSTRACT_TERMS_QUICK: &'static [(f32, EvaluationFunction)] = &[(1.0, term0), (0.8, term1)];
 
 #[kani::proof]
 #[kani::unwind(10)]
